@@ -22,6 +22,19 @@ pub fn boundary(thorough: bool) -> Vec<i32> {
 
 fn case(ctx: &mut Ctx, id: &str, expr: E) {
     let prog = vec![print("[", vec![]), print("~", vec![expr]), print("]", vec![])];
+    case_in(ctx, id, prog)
+}
+
+/// the same operation where its value is discarded, and where it is the condition of an `if` and of a
+/// `while` (whose body prints and then fails, so that every outcome terminates): the operation is
+/// performed - and checked - wherever it stands
+fn case_in_contexts(ctx: &mut Ctx, id: &str, expr: E) {
+    case_in(ctx, &format!("{} [discarded]", id), vec![print("[", vec![]), block(vec![expr.clone(), int(0)]), print("]", vec![])]);
+    case_in(ctx, &format!("{} [if]", id), vec![print("[", vec![]), print("~", vec![if_(expr.clone(), int(1), Some(int(2)))]), print("]", vec![])]);
+    case_in(ctx, &format!("{} [while]", id), vec![print("[", vec![]), while_(expr, block(vec![print("in", vec![]), binop("/", int(1), int(0))])), print("]", vec![])]);
+}
+
+fn case_in(ctx: &mut Ctx, id: &str, prog: Vec<E>) {
     let r = refsem::run(&prog);
     ctx.count("programs", 1);
     if r.status == Status::Unspec { ctx.count("unspecified", 1); return }
@@ -63,6 +76,7 @@ pub fn run(ctx: &mut Ctx) {
     for (rn, r) in &vals { for (an, a) in &vals { for op in OPERATORS {
         if ctx.take().is_none() { continue }
         case(ctx, &format!("cross {} {} {}", rn, op, an), binop(op, r.clone(), a.clone()));
+        case_in_contexts(ctx, &format!("cross {} {} {}", rn, op, an), binop(op, r.clone(), a.clone()));
     } } }
     for (rn, r) in &vals { for name in ["+", "==", "&", "get", "set", "nosuch"] { for n in 0..=3usize {
         if ctx.take().is_none() { continue }
